@@ -396,7 +396,7 @@ class Machine:
         k = self.fm_i[pid]
         self.fm_i[pid] += 1
         if k < len(draws):
-            return draws[k]
+            return draws[k] if a <= draws[k] < b else self.randrange_fm(a, b)   # randrange never leaves its range
         if k - len(draws) + 1 >= b:      # every slot tried: the real loop never ends
             while True:
                 self.s.gate()
@@ -420,8 +420,12 @@ class Machine:
     def os_open(self, path, flags, mode=0o777):
         k = self.kind(path)
         excl = bool(flags & _os.O_EXCL)
-        if k == "fm" and not excl and self.w.lookup(path) is not None:
-            node = self.w.lookup(path)       # exists and is never unlinked: cannot fail, no effect, no scheduling point
+        if k == "fm" and not excl and flags & _os.O_CREAT:
+            self.s.gate()                    # FMMULock: open-or-create, cannot fail
+            node, _ = self.w.create(path, self.s.pid(), False)
+            self.emit("fm_open")
+        elif k == "fm" and not excl and self.w.lookup(path) is not None:
+            node = self.w.lookup(path)       # (older code) second open of the never-unlinked file: no effect
         else:
             self.s.gate()
             tok = f"{k}_open" if excl else f"{k}_reopen"
@@ -736,8 +740,7 @@ def predicates(case, glob):
     n = len(case["cfgs"])
     late = [False] * n       # last leaver: its rmdir succeeded, its remove(programs) has not happened yet
     left = [False] * n       # has executed `leave`
-    creating = None          # pid between the O_EXCL create of the bitmap file and its initialising write
-    race = stale = window = rmtree = False
+    race = stale = rmtree = False
     for pid, t, pin_exists in glob:
         start_op = t.startswith(("mkdtemp", "open_", "rename", "rmtree_", "obj_get", "create_map", "attach", "obj_pin")) \
             or (t.startswith(("remove_pin", "remove_member")) and not left[pid])
@@ -751,17 +754,9 @@ def predicates(case, glob):
             late[pid] = True
         if t.startswith("remove_pin") and left[pid]:
             late[pid] = False
-        if t.startswith("fm_") and creating is not None and pid != creating:
-            window = True
-        if t == "fm_open:created":
-            creating = pid
-        if t == "fm_write":
-            creating = None
         if t == "rmtree_lock":
             rmtree = True
-    return {"leaver-starter-race": race, "stale-programs-file": stale, "fmmu-create-window": window,
-            "installer-fault-rmtree": rmtree,
-            "fmmu-window-overflow": any(c["naddr"] >= WINDOW_GROUPS for c in case["cfgs"])}
+    return {"leaver-starter-race": race, "stale-programs-file": stale, "installer-fault-rmtree": rmtree}
 
 
 WINDOW_GROUPS = (1 << 22) // (1 << 12)   # property text: "10 bits for sync groups within a process"
@@ -787,12 +782,7 @@ def evaluate(ctx, case):
                 case, seen, "leaver-starter-race" if pr["leaver-starter-race"] else
                 "stale-programs-file" if pr["stale-programs-file"] else fault)
     if v["fw"] is not None:
-        o = obs[v["fw"]]
-        ws = [p["win"] for p in o["procs"] if p["running"]]
-        same = len({w[0] for w in ws}) != len(ws)
-        cls = ("fmmu-create-window" if pr["fmmu-create-window"] else None) if same else \
-              ("fmmu-window-overflow" if pr["fmmu-window-overflow"] else None)
-        ctx.require(False, "logical address windows of two running participants overlap", case, seen, cls)
+        ctx.require(False, "logical address windows of two running participants overlap", case, seen)   # proved: no known class
     return line, v, pr, m
 
 
@@ -841,14 +831,21 @@ def C(et=(), fm=(), naddr=0, fails=False):
     return {"et": list(et), "fm": list(fm), "naddr": naddr, "attach_fails": fails}
 
 
+# witnesses of the two repaired FMMU defects (fixed in /repo): they must pass now
+FORMER_WITNESSES = [
+    # P0 opens/creates the bitmap file; before it goes on P1 allocates slot 7; P0 continues; P2 draws 7 as well
+    {"cfgs": [C(), C(et=[12288], fm=[7]), C(et=[12288, 12289], fm=[7])],
+     "sched": [0] * 10 + [1] * 18 + [0] * 6 + [2] * 18, "fm0": None},
+    {"cfgs": [C(), C(et=[12288], fm=[7]), C(et=[12288, 12289], fm=[7])],
+     "sched": [0] * 12 + [1] * 18 + [0] * 6 + [2] * 18, "fm0": None},
+    # P0 asks for 1024 sync-group addresses (the last one would lie in the window of process number 2, which P1 owns)
+    {"cfgs": [C(naddr=WINDOW_GROUPS), C(et=[12288], fm=[2])], "sched": [0] * 15 + [1] * 16, "fm0": None},
+    {"cfgs": [C(fm=[1], naddr=WINDOW_GROUPS - 1), C(et=[12288], fm=[2])], "sched": [0] * 15 + [1] * 16, "fm0": None},
+]
+
 WITNESSES = {
     # P0 is the last leaver: after its rmdir P1 installs and runs; then P0 detaches P1's dispatcher and unlinks P1's pin
     "leaver-starter-race": {"cfgs": [C(), C(fm=[7])], "sched": [0] * 14 + [1] * 14 + [0, 0], "fm0": None},
-    # P0 creates the bitmap file; before its initialising write P1 allocates slot 7; the write wipes the bit; P2 gets slot 7 too
-    "fmmu-create-window": {"cfgs": [C(), C(et=[12288], fm=[7]), C(et=[12288, 12289], fm=[7])],
-                           "sched": [0] * 10 + [1] * 16 + [0] + [2] * 16, "fm0": None},
-    # P0 asks for 1024 sync-group addresses: the last one lies in the window of process number 2 (P1)
-    "fmmu-window-overflow": {"cfgs": [C(naddr=WINDOW_GROUPS), C(et=[12288], fm=[2])], "sched": [0] * 11 + [1] * 14, "fm0": None},
     # P1 joins P0's session but its obj_get come too early; P0 runs and leaves (rmdir fails: P1's file); P1's clean-up empties the
     # lock dir, dispatcher and pin stay.  P2 renames over the empty dir, P3 joins with the OLD table and runs, P2 removes the old pin.
     # P0's netlink attach fails: its `except` path rmtree()s the lock dir together with P1's member file (ethertype 12288);
@@ -879,6 +876,7 @@ def run(ctx):
             cases.append({"cfgs": [C(), C(et=[12288], fm=[3])], "sched": [0] * k + [1] * j + [0] * 8 + [1] * 20, "fm0": None})
     for _ in range(ctx.n(500, 20000)):
         cases.append(gen(ctx.rng))
+    cases += [dict(w) for w in FORMER_WITNESSES]
     cases += [dict(w) for w in WITNESSES.values()]      # last: a new failure is first reported on a case the unchanged tree passes
     lines = []
     for c in cases:
